@@ -211,7 +211,7 @@ impl ParsedFields<'_, '_> {
     }
 
     fn render_source_as_enum_variant_match_arm(&self) -> Option<TokenStream> {
-        let source = self.source?;
+        let source = self.data.field_indexes[self.source?];
         let pattern = self.data.matcher(&[source], &[quote! { source }]);
         let expr = render_some(quote! { source });
         Some(quote! { #pattern => #expr })
@@ -248,9 +248,9 @@ impl ParsedFields<'_, '_> {
     }
 
     fn render_provide_as_enum_variant_match_arm(&self) -> Option<TokenStream> {
-        let backtrace = self.backtrace?;
+        let backtrace = self.data.field_indexes[self.backtrace?];
 
-        match self.source {
+        match self.source.map(|source| self.data.field_indexes[source]) {
             Some(source) if source == backtrace => {
                 let pattern = self.data.matcher(&[source], &[quote! { source }]);
                 Some(quote! {
@@ -329,9 +329,9 @@ fn parse_fields<'input, 'state>(
                     _ => unreachable!(),
                 })?;
 
-            parsed_fields.source = parsed_fields
-                .source
-                .or_else(|| infer_source_field(&state.fields, &parsed_fields));
+            parsed_fields.source = parsed_fields.source.or_else(|| {
+                infer_source_field(&parsed_fields.data.fields, &parsed_fields)
+            });
 
             Ok(parsed_fields)
         }
@@ -343,7 +343,7 @@ fn parse_fields<'input, 'state>(
         add_bound_if_type_parameter_used_in_type(
             &mut parsed_fields.bounds,
             type_params,
-            &state.fields[source].ty,
+            parsed_fields.data.field_types[source],
         );
     }
 
